@@ -120,6 +120,7 @@ enum Counter : uint32_t {
     C_FS_EINTR,
     C_FS_BOUNDARY,
     C_YIELD_CLOCK,
+    C_FS_WRITE_REFUSED,
     C_USER0 = 32, // harness specific probes from here
 };
 void count(uint32_t c, uint32_t n = 1);
@@ -247,6 +248,8 @@ struct FsConfig
     FsBoundaryFn on_boundary = nullptr;
     void *ctx = nullptr;
     bool record_writes = false; // emit EV_FS_WRITE events (thread attribution)
+    std::string fail_write_path; // relative path: every write to it fails with fail_write_errno ("disk full")
+    int fail_write_errno = 0;
 };
 void fs_arm(const FsConfig &cfg);
 void fs_disarm();
